@@ -106,7 +106,9 @@ Inductive sact :=
 | SSet (i : nat)                (* t, _ := NewTable(texts[i]); SetTable(t)   (t = nil on error) *)
 | SNil                          (* SetTable(nil) *)
 | SLoad (r : nat)               (* reader r: GetTable() *)
-| SLook (r : nat) (q : req).    (* reader r: Lookup on its table *)
+| SLook (r : nat) (q : req)     (* reader r: Lookup on its table *)
+| SRead (r : nat) (k : N).      (* a read-only user of GetTable(): 0 GET /api/routes, 1 with ?raw, 2 Table.String,
+                                   3 Table.Dump, 4 the gRPC pool's hasTarget; on reader r's table as well *)
 
 Inductive case :=
 (* route.NewTable(text) and lookups on the result *)
@@ -178,6 +180,7 @@ Definition check_case (c : case) : N :=
                                 | SNil => ASet None
                                 | SLoad r => ALoad r
                                 | SLook r q => ALookup r q 0
+                                | SRead r k => ARead r k
                                 end) sched in
       let res := run_cell btable req N (outcome lobs) (look e) [] (no_locals btable) acts in
       let m := map (fun x => match x with
